@@ -115,6 +115,11 @@ def scripts_for(pid, tier, seed, fx):
         for _ in range(2500 if thorough else 60):
             ns = rng.sample(groups, rng.choice([2, 3, 4, 5]))
             rnd(ns, 1, 60 if thorough else 40, registry=True, stats=False, nkeys=4)
+        # the same label used for different kinds of grouping by different functions
+        xg = ["g_x1", "g_x2", "g_x3", "g_x4"]
+        for _ in range(600 if thorough else 20):
+            ns = xg + rng.sample([g for g in groups if g not in xg], rng.choice([0, 1, 2]))
+            rnd(ns, 1, 60 if thorough else 45, registry=True, stats=False, nkeys=3)
         # policies / limits behind invalidate_with on ordinary fixtures
         for _, p in KINDS[0:3:2]:
             for f in (p + "_lru2", p + "_lfu3_ttl2", p + "_arc2", p + "_mem_lru", p + "_fifo3_ttl2"):
@@ -142,7 +147,8 @@ def scripts_for(pid, tier, seed, fx):
                     + [{"op": "call", "f": tf, "t": t, "k": k} for t in (1, 2, 3) for k in (1, 2)], threads=3)
             rnd([tf, "g_a"], 100 if thorough else 4, 80, threads=3, nkeys=3, registry=True)
     elif pid == "C20":
-        for f in ("a_await1", "a_await2_ttl2", "a_await3_res", "a_await2_mem"):
+        for f in ("a_await1", "a_await2_ttl2", "a_await3_res", "a_await2_mem", "a_await1_arc", "a_await2_tlru_ttl3",
+                  "a_await1_inv"):
             fi = fx[f]
             aw = fi["awaits"]
             cn = fi["cache_name"]
@@ -155,6 +161,10 @@ def scripts_for(pid, tier, seed, fx):
                 mid_alpha.append({"op": "tick", "d": fi["cfg"]["ttl"]})
             if fi["isResult"]:
                 mid_alpha.append({"op": "call", "f": f, "k": 1, "ok": False})
+            if fi["hasInv"]:
+                # the stored entry is declared stale: the call recomputes and RE-stores an existing key
+                mid_alpha.append({"op": "call", "f": f, "k": 1, "size": 60, "inv": True})
+                mid_alpha.append({"op": "start", "task": "B", "f": f, "k": 1, "size": 60, "inv": True})
             probe = [{"op": "call", "f": f, "k": 1, "size": 60}, {"op": "call", "f": f, "k": 2, "size": 60},
                      {"op": "call", "f": f, "k": 4, "size": 60}, {"op": "call", "f": f, "k": 1, "size": 60}]
             for pre in ([], [{"op": "call", "f": f, "k": 1, "size": 60}, {"op": "call", "f": f, "k": 2, "size": 60}]):
@@ -181,6 +191,10 @@ def scripts_for(pid, tier, seed, fx):
                                     else:
                                         ops.append({"op": "drop", "task": "A"})
                                     if hasB:
+                                        # other keys are used between the two endings: B resumes against a
+                                        # cache in which A's store is no longer the most recent event
+                                        for j in rng.choice([[], [1], [2], [1, 0], [2, 1]]):
+                                            ops.append(dict(mid_alpha[j]))
                                         if rng.random() < 0.5:
                                             ops.append({"op": "resume", "task": "B", "upto": aw})
                                         else:
